@@ -569,6 +569,12 @@ def workload(tier, rng, shard, nshards, work):
             if k % 5 == 0:
                 s, e = sorted((rng.randrange(0, n + 1) / rate, rng.randrange(0, n + 1) / rate)) if on_grid else sorted((rng.uniform(0, n / rate), rng.uniform(0, n / rate)))
                 call(audio.extractSubwav, fn, os.path.join(str(work), "sub.wav"), s, e)
+                if k % 15 == 0:
+                    # a stretch of no length is a stretch: at the very start (both times 0), at the very end, somewhere inside
+                    z = rng.choice([0, 0.0, n / rate, rng.randrange(0, n + 1) / rate])
+                    REC.cls("C17:extract-zero-length")
+                    call(audio.extractSubwav, fn, os.path.join(str(work), "sub.wav"), z, z)
+                    call(audio.extractSubwav, fn, os.path.join(str(work), "sub.wav"), 0, rng.choice([0, 0.0]))
                 if k % 10 == 0 or n >= 5000:
                     # trimming a recording in place: the output path is the source path
                     import shutil
